@@ -374,7 +374,7 @@ Section DiscFull.
     - (* the LIB is a stored proper ancestor *)
       assert (Hf : find (bid b) (store (db s)) = None) by (apply find_none; exact Hnk).
       destruct (found_x U cfg Hnofail Hnew Hundo Hincl U_id U_uniq U_up D_decl s b y A a0 B' HP Hb Hf Hc Hna)
-        as (s1 & Hfx & _ & Hl1 & _ & _ & _ & HaU & Hka0 & Hlt).
+        as (s1 & Hfx & _ & Hl1 & _ & _ & _ & HaU & Hka0 & Hlt & _ & _).
       set (en := mkEntry b false) in *. set (l := store (db s) ++ [en]) in *.
       pose proof HP as [_ _ Hnd HU0 _ _ _ _].
       assert (Hnd1 : NoDup (keys l)) by (unfold l; rewrite keys_snoc; apply nodup_snoc; assumption).
@@ -430,5 +430,181 @@ Section DiscFull.
         * intros x [<-|Hx]; [exact Hb | apply RU; exact Hx].
         * intros x [<-|Hx]; rewrite keys_snoc; apply in_or_app; [right; left; reflexivity | left; apply Rs; exact Hx].
         * intros e He. apply in_app_or in He as [He|[<-|[]]]; [right; apply Rr; exact He | left; reflexivity].
+  Qed.
+
+  (* ---------------------------------------------------------------- one call before the discovery, everything exposed *)
+
+  Notation kept := (c_kept cfg).
+
+  Lemma filter_true {A} (l : list A) : filter (fun _ => true) l = l.
+  Proof. induction l as [|x l IH]; [reflexivity|]. cbn [filter]. rewrite IH. reflexivity. Qed.
+
+  Definition QuietStep (s : fstate) (fc : fc_state) (b : block) : Prop :=
+    exists s1, fk_step cfg s b = (s1, [], ROk) /\ PreInv s1 /\ PRel (step fc b) s1 /\
+      ((s1 = s /\ step fc b = fc) \/ (s1 = with_db s (new_db (db s) b) /\ fc_recv (step fc b) = b :: fc_recv fc)).
+
+  Definition EstabStep (s : fstate) (fc : fc_state) (b : block) : Prop :=
+    exists s' a Fin S' M f,
+      fk_step cfg s b = (s', disc_events cfg b a (rev S'), ROk) /\ In a U /\
+      step fc b = mkFC (b :: fc_recv fc) (bref a) (Some b) (Some a) /\
+      Inv U (R a) cfg s' Fin S' /\ Ext s' Fin /\
+      FcRel U (mkFC (b :: fc_recv fc) (R a) (Some b) (hd_error (rev Fin))) s' Fin S' /\
+      libref (db s') = R a /\ extra (db s') = None /\ last_sent s' = Some b /\ last_lib_seen s' = R a /\
+      store (db s') = fil f M /\ (forall x, bnum a <= bnum x -> f x = true) /\ NoDup (keys M) /\ in_U U M /\
+      ((a = b /\ Fin = [b] /\ S' = [b] /\ M = store (db s) ++ [mkEntry b false] /\ f = (fun _ => true)) \/
+       (bnum a < bnum b /\ Fin = [] /\ f = (fun x => bnum a - kept <=? bnum x) /\
+        exists B', chain (store (db s) ++ [mkEntry b false]) (bid b) (bid a) (B' ++ [mkEntry b false]) /\
+                   S' = rev (map eb B' ++ [b]) /\
+                   M = mark_all (store (db s) ++ [mkEntry b false]) (unsent (map seg_of (B' ++ [mkEntry b false]))))).
+
+  Lemma handover_rel s b s' a Fin pre recv :
+    In b U -> (forall x, In x recv -> In x U) ->
+    (forall x, In x recv -> In (bid x) (keys (store (db s)))) ->
+    (forall id, In id (keys (store (db s))) -> exists x, In x recv /\ bid x = id) ->
+    In a U ->
+    libref (db s') = R a -> last_lib_seen s' = R a -> last_sent s' = Some b ->
+    In (bid a) (keys (store (db s'))) ->
+    (forall x, In x U -> In (bid x) (keys (store (db s)) ++ [bid b]) ->
+               In (bid x) (keys (store (db s'))) \/ bnum x < bnum a - c_kept cfg) ->
+    (forall id, In id (keys (store (db s'))) -> In id (keys (store (db s)) ++ [bid b])) ->
+    Ext s' Fin /\ FcRel U (mkFC (b :: recv) (R a) (Some b) (hd_error (rev Fin))) s' Fin (rev (pre ++ [b])).
+  Proof.
+    intros Hb HrU Hrs Hsr HaU Hl' Hlls' Hls' Hka Hret Hsub.
+    split; [exact (disc_ext U U_id s' a Fin HaU Hl' Hlls' Hka)|].
+    constructor; cbn [fc_lib fc_tip fc_final fc_recv].
+    - symmetry. exact Hl'.
+    - symmetry. exact Hls'.
+    - rewrite Hls', rev_app_distr. reflexivity.
+    - reflexivity.
+    - intros x [<-|Hx]; [exact Hb | apply HrU; exact Hx].
+    - intros id Hid. apply Hsub in Hid. apply in_app_or in Hid as [Hid|[<-|[]]].
+      + destruct (Hsr id Hid) as (x & Hx & E). cbn [map]. right. rewrite <- E. apply in_map. exact Hx.
+      + left. reflexivity.
+    - intros x Hx.
+      assert (HxU : In x U) by (destruct Hx as [<-|Hx]; [exact Hb | apply HrU; exact Hx]).
+      assert (Hxk : In (bid x) (keys (store (db s)) ++ [bid b])).
+      { destruct Hx as [<-|Hx]; [apply in_or_app; right; left; reflexivity | apply in_or_app; left; apply Hrs; exact Hx]. }
+      destruct (Hret x HxU Hxk) as [G|G]; [left; exact G|]. right.
+      unfold dropped. rewrite Hl', Hls'. cbn [R rn]. rewrite andb_true_r. apply N.ltb_lt. lia.
+  Qed.
+
+  Lemma pre_step_x s fc b : PreInv s -> PRel fc s -> In b U -> QuietStep s fc b \/ EstabStep s fc b.
+  Proof.
+    intros HP HR Hb. pose proof HR as [Rl Rt Rf RU Rs Rr].
+    assert (Hhold0 : ri (fc_lib fc) =? 0 = true) by (rewrite Rl; reflexivity).
+    assert (Hsr : forall id, In id (keys (store (db s))) -> exists x, In x (fc_recv fc) /\ bid x = id).
+    { intros id Hid. apply in_map_iff in Hid as (e & <- & He). exists (eb e). split; [apply Rr; exact He | reflexivity]. }
+    set (en := mkEntry b false). set (l := store (db s) ++ [en]).
+    pose proof HP as [_ Hex0 Hnd HU0 _ _ _ _].
+    destruct (disc_cases_x U cfg Hhold Hincl U_id U_uniq U_up D_decl s b HP Hb)
+      as [[Hk Hstep]|(Hnk & [[Hcond Hstep]|[(Hnf & y & A & a0 & B' & Hc & Hy & Hna & Hstep)|(Hnf & (y & p' & Hc & Hy & Hgt) & Hstep & HP1)]])].
+    - left. exists s. split; [exact Hstep|]. split; [exact HP|].
+      assert (Hfc : step fc b = fc).
+      { unfold fcd_step. rewrite Hhold0. destruct (Hsr _ Hk) as (x & Hx & E).
+        destruct (lookup_exists (fc_recv fc) x Hx) as [b' Hb']. rewrite <- E, Hb'. reflexivity. }
+      rewrite Hfc. split; [exact HR|]. left. auto.
+    - (* own *)
+      right.
+      assert (Hf : find (bid b) (store (db s)) = None) by (apply find_none; exact Hnk).
+      destruct (own_x U cfg Hnofail Hnew s b HP Hb Hf) as (s1 & Hx & Hdb1 & Hls1 & Hlls1).
+      destruct (own_ev U cfg Hnofail Hnew U_id U_uniq U_up s b HP Hb Hf)
+        as (s' & a' & Fin & pre & Hst & HaU & Hab & Happ & HI' & Hcase & Hl' & Hlls' & Hls' & Hka & Hret & Hsub & _).
+      fold (own_expr cfg s b) in Hst. rewrite Hx in Hst. injection Hst as <- Hev.
+      assert (a' = b).
+      { rewrite Hdb1 in Hl'. cbn [move_lib libref] in Hl'. injection Hl' as E1 E2. apply U_uniq; auto. }
+      subst a'.
+      destruct Hcase as [(_ & -> & ->)|(Hks & _)]; [|contradiction].
+      destruct (handover_rel s b s1 b [b] [] (fc_recv fc) Hb RU Rs Hsr Hb Hl' Hlls' Hls' Hka Hret Hsub) as [HX' HR0].
+      exists s1, b, [b], [b], l, (fun _ => true).
+      split; [rewrite Hstep; exact Hx|]. split; [exact Hb|].
+      split.
+      { unfold fcd_step. rewrite Hhold0. rewrite (lookup_none_of (bid b) (fc_recv fc)).
+        2:{ intros x Hx0 E. apply Hnk. rewrite <- E. apply Rs. exact Hx0. }
+        destruct (N.eqb_spec (bnum b) first) as [Hfi|Hfi]; [reflexivity|].
+        destruct Hcond as [Hc1|Hbl]; [contradiction|]. cbn [ancestor_at]. rewrite Hbl, N.eqb_refl. reflexivity. }
+      split; [exact HI'|]. split; [exact HX'|]. split; [exact HR0|]. split; [exact Hl'|].
+      split; [rewrite Hdb1; exact Hex0|]. split; [exact Hls'|]. split; [exact Hlls'|].
+      split; [rewrite Hdb1; unfold fil; rewrite filter_true; reflexivity|]. split; [reflexivity|].
+      split; [unfold l; rewrite keys_snoc; apply nodup_snoc; assumption|].
+      split; [intros e Hin; apply in_app_or in Hin as [Hin|[<-|[]]]; [apply HU0; exact Hin | exact Hb]|].
+      left. auto.
+    - (* found *)
+      right.
+      assert (Hf : find (bid b) (store (db s)) = None) by (apply find_none; exact Hnk).
+      destruct (found_x U cfg Hnofail Hnew Hundo Hincl U_id U_uniq U_up D_decl s b y A a0 B' HP Hb Hf Hc Hna)
+        as (s1 & Hfx & Hst1 & Hl1 & Hex1 & Hls1 & Hlls1 & HaU & Hka0 & Hlt & HndM & HUM).
+      destruct (found_ev U cfg Hnofail Hnew Hundo Hincl U_id U_uniq U_up D_decl s b y A a0 B' HP Hb Hf Hc Hna)
+        as (s' & a' & Fin & pre & Hst & HaU' & Hab & Happ & HI' & Hcase & Hl' & Hlls' & Hls' & Hka & Hret & Hsub & _).
+      fold (found_expr cfg s b a0 B') in Hst. rewrite Hfx in Hst. injection Hst as <- Hev.
+      assert (a' = eb a0).
+      { rewrite Hl1 in Hl'. injection Hl' as E1 E2. apply U_uniq; [exact HaU' | exact HaU | symmetry; exact E1]. }
+      subst a'.
+      assert (Hpre : pre ++ [b] = map eb B' ++ [b]) by (symmetry; exact (disc_events_inj b (eb a0) _ _ Hev)).
+      rewrite Hpre in *.
+      destruct Hcase as [(Eab & _)|(_ & _ & ->)]; [rewrite Eab in Hlt; lia|].
+      pose proof HP as [_ _ Hnd' HU0' _ _ _ _].
+      assert (Hnd1 : NoDup (keys l)) by (unfold l; rewrite keys_snoc; apply nodup_snoc; assumption).
+      assert (HU1 : in_U U l) by (intros e Hin; apply in_app_or in Hin as [Hin|[<-|[]]]; [apply HU0; exact Hin | exact Hb]).
+      pose proof (wf_of_U U U_id U_up _ Hnd1 HU1) as Hwf1.
+      pose proof (chain_suffix l y (B' ++ [en]) (bid b) A a0 Hwf1 Hc) as Hc2.
+      destruct (handover_rel s b s1 (eb a0) [] (map eb B') (fc_recv fc) Hb RU Rs Hsr HaU Hl' Hlls' Hls' Hka Hret Hsub) as [HX' HR0].
+      exists s1, (eb a0), [], (rev (map eb B' ++ [b])), (mark_all l (unsent (map seg_of (B' ++ [en])))), (fun x => bnum (eb a0) - kept <=? bnum x).
+      rewrite rev_involutive.
+      split; [rewrite Hstep; exact Hfx|]. split; [exact HaU|].
+      split.
+      { unfold fcd_step. rewrite Hhold0. rewrite (lookup_none_of (bid b) (fc_recv fc)).
+        2:{ intros x Hx0 E. apply Hnk. rewrite <- E. apply Rs. exact Hx0. }
+        destruct (N.eqb_spec (bnum b) first) as [Hfi|_]; [contradiction|].
+        assert (Hfb : find (bid b) l = Some en) by (apply (find_snoc_new (store (db s)) en); exact Hnk).
+        assert (Hain : In a0 l) by (eapply chain_in; [exact Hc|]; apply in_or_app; right; left; reflexivity).
+        assert (Hfa : find (key a0) l = Some a0) by (exact (find_in_nodup _ _ Hnd1 Hain)).
+        destruct (chain_split_order _ _ _ _ _ _ Hwf1 Hc) as [Habove _].
+        assert (Hanc : ancestor_at (S (length (b :: fc_recv fc))) (b :: fc_recv fc) (eb en) (blib b) = Some (eb a0)).
+        { apply (walk_found U U_uniq l (b :: fc_recv fc)) with (a := a0) (x := bid b) (p := B' ++ [en]).
+          - intros x [<-|Hx]; [exact Hb | apply RU; exact Hx].
+          - intros e He. apply in_app_or in He as [He|[<-|[]]]; [right; apply Rr; exact He | left; reflexivity].
+          - exact Hna.
+          - exact Hfa.
+          - exact Hc2.
+          - intros e He. rewrite <- Hna. apply Habove. exact He.
+          - exact Hfb.
+          - assert (Hlen1 : (length (B' ++ [en]) < length l)%nat).
+            { apply (chain_shorter l (bid b) (key a0) (B' ++ [en]) Hwf1 Hc2). apply in_map. exact Hain. }
+            assert (Hlen2 : (length l <= length (b :: fc_recv fc))%nat).
+            { rewrite <- (map_length key l), <- (map_length bid (b :: fc_recv fc)).
+              apply NoDup_incl_length; [exact Hnd1|]. intros id Hid. unfold l in Hid. fold (keys (store (db s) ++ [en])) in Hid.
+              rewrite keys_snoc in Hid. apply in_app_or in Hid as [Hid|[<-|[]]]; [|left; reflexivity].
+              destruct (Hsr id Hid) as (x & Hx & E). right. rewrite <- E. apply in_map. exact Hx. }
+            lia. }
+        cbn [eb en] in Hanc. rewrite Hanc. reflexivity. }
+      split; [exact HI'|]. split; [exact HX'|]. split; [exact HR0|]. split; [exact Hl'|].
+      split; [exact Hex1|]. split; [exact Hls'|]. split; [exact Hlls'|].
+      split; [exact Hst1|]. split; [intros x Hx; apply N.leb_le; lia|].
+      split; [exact HndM|]. split; [exact HUM|].
+      right. split; [exact Hlt|]. split; [reflexivity|]. split; [reflexivity|].
+      exists B'. split; [exact Hc2|]. split; reflexivity.
+    - (* held *)
+      left. exists (with_db s (new_db (db s) b)). split; [exact Hstep|]. split; [exact HP1|].
+      assert (Hfc : step fc b = mkFC (b :: fc_recv fc) ref_empty None None).
+      { unfold fcd_step. rewrite Hhold0.
+        rewrite (lookup_none_of (bid b) (fc_recv fc)).
+        2:{ intros x Hx E. apply Hnk. rewrite <- E. apply Rs. exact Hx. }
+        destruct (N.eqb_spec (bnum b) first) as [Hf|_]; [contradiction|].
+        assert (Hfb : find (bid b) l = Some en) by (apply (find_snoc_new (store (db s)) en); exact Hnk).
+        assert (Hanc : ancestor_at (S (length (b :: fc_recv fc))) (b :: fc_recv fc) (eb en) (blib b) = None).
+        { apply (walk_hold U U_uniq l (b :: fc_recv fc)) with (x := bid b) (y := y) (p := p' ++ [en]).
+          - intros x [<-|Hx]; [exact Hb | apply RU; exact Hx].
+          - intros e He. apply in_app_or in He as [He|[<-|[]]]; [right; apply Rr; exact He | left; reflexivity].
+          - intros x [<-|Hx]; unfold l; rewrite keys_snoc; apply in_or_app; [right; left; reflexivity | left; apply Rs; exact Hx].
+          - exact Hc.
+          - exact Hy.
+          - exact Hgt.
+          - exact Hfb. }
+        cbn [eb en] in Hanc. rewrite Hanc. reflexivity. }
+      rewrite Hfc. split; [|right; split; reflexivity].
+      constructor; cbn [fc_lib fc_tip fc_final fc_recv with_db db new_db store]; try reflexivity.
+      + intros x [<-|Hx]; [exact Hb | apply RU; exact Hx].
+      + intros x [<-|Hx]; rewrite keys_snoc; apply in_or_app; [right; left; reflexivity | left; apply Rs; exact Hx].
+      + intros e He. apply in_app_or in He as [He|[<-|[]]]; [right; apply Rr; exact He | left; reflexivity].
   Qed.
 End DiscFull.
